@@ -5,6 +5,7 @@ package main
 // All run in lock-step with the model; the monitors are evaluated on the implementation.
 
 import (
+	"sort"
 	"encoding/json"
 	"fmt"
 	"math/rand"
@@ -435,6 +436,22 @@ func scenSigMut(rep *Report, tier string, seed int64) {
 				}
 			}
 		}
+		// insignificant JSON whitespace: the signature covers the exact content bytes, so a padded
+		// copy (a different entry hash, hence not a replay) must not execute
+		for _, ws := range []string{" ", "\n", "\t", "\r"} {
+			c := string(orig.Content)
+			add("ws:append", cloneEntryWith(orig, extCopy(orig), []byte(c+ws)))
+			add("ws:prepend", cloneEntryWith(orig, extCopy(orig), []byte(ws+c)))
+			if i := strings.Index(c, ","); i > 0 {
+				add("ws:after-comma", cloneEntryWith(orig, extCopy(orig), []byte(c[:i+1]+ws+c[i+1:])))
+			}
+			if i := strings.Index(c, ":"); i > 0 {
+				add("ws:after-colon", cloneEntryWith(orig, extCopy(orig), []byte(c[:i+1]+ws+c[i+1:])))
+			}
+			if i := strings.LastIndex(c, "}"); i > 0 {
+				add("ws:before-closing-brace", cloneEntryWith(orig, extCopy(orig), []byte(c[:i]+ws+c[i:])))
+			}
+		}
 		if len(orig.ExtIDs) == 3 {
 			// every bit of the last signature byte (the RCD-e recovery byte when present)
 			for bit := 0; bit < 8; bit++ {
@@ -511,7 +528,18 @@ func scenSigMut(rep *Report, tier string, seed int64) {
 				Blocks: ChainJSON(run.Chain)})
 			sig := "sigmut:extra-execution:" + ec.name
 			if len(executedKinds) > 0 {
-				sig += ":" + executedKinds[0]
+				// the signature names every kind of mutant that executed (a known finding for one
+				// kind must not hide another kind)
+				set := map[string]bool{}
+				var ks []string
+				for _, k := range executedKinds {
+					if k != "salt-at-window-edge" && !set[k] {
+						set[k] = true
+						ks = append(ks, k)
+					}
+				}
+				sort.Strings(ks)
+				sig += ":" + strings.Join(ks, "+")
 			}
 			if executed < expectOrig {
 				sig = "sigmut:valid-entry-not-executed:" + ec.name
